@@ -268,7 +268,7 @@ Definition wf_gm_dir (orc : gm_oracle) (d : gm_dir) : bool :=
   match d with
   | DIgnored verb _ => ignored_verb verb
   | DRequire _ v => negb (is_nil v)
-  | DReplace r => negb (bytes_eqb (rr_old r) s_arrow)
+  | DReplace r => negb (bytes_eqb (rr_old r) s_arrow) && negb (bytes_eqb (rr_new r) s_arrow)
   | _ => true
   end.
 Definition wf_gm_item (orc : gm_oracle) (it : gm_item) : bool :=
@@ -279,7 +279,7 @@ Definition wf_gm_item (orc : gm_oracle) (it : gm_item) : bool :=
       block_verb verb && wf_tl_lay opn && wf_tl_lay cls &&
       forallb (fun b => match b with
                         | BNoise n _ => wf_gm_noise n
-                        | BDir d y => wf_gm_dir orc d && wf_tl_lay y && bytes_eqb (dir_verb d) verb
+                        | BDir d y => wf_gm_dir orc d && wf_tl_lay y && bytes_eqb (dir_verb d) verb && negb (is_nil (dir_args d))
                         end) entries
   end.
 Definition count_dirs (f : gm_dir -> bool) (d : gm_doc) : nat := length (filter f (doc_dirs d)).
